@@ -8,7 +8,8 @@ ORDER = """ensures
     r == cr_spec(*params, it, final(self)%(f)s.cum_regret@), // @ob C02.V.advance.reports_bound"""
 UNIT = dict(
     id="c08_advance_order",
-    prelude=[],
+    prelude=["floats.rs"],
+    canary_use="broadcast use fl; ax_obeys();",
     expect=[("src/solve/vanilla.rs", r"trait MutexPlayerRecurse \{\s*fn update_cum_strat\(&self, prob: f64\);\s*fn advance\(&mut self, it: u64, params: &RegretParams\) -> f64;\s*\}"),
             ("src/solve/data.rs", r"AtomicIter\(self\.iter_mut\(\)\)"), ("src/solve/data.rs", r"self\.0\.next\(\)\.map\(AtomicF64::get_mut\)"),
             ("src/solve/vanilla.rs", r"trait PlayerRecurse \{\s*fn update_cum_strat\(&mut self, prob: f64\);\s*fn advance\(&mut self, it: u64, params: &RegretParams\) -> f64;\s*\}"),
